@@ -457,6 +457,7 @@ func init() {
 		MaxSim: 3 * time.Hour,
 		Rule: "plans = (read limit in {256,1000,4096,65536, default 8 MiB in the thorough tier}, 1-12 valid envelopes with exact encoded sizes drawn around the boundaries " +
 			"tiny / limit/2 / limit-2.. / limit-1,limit,limit+1 / between / 2*limit-1..+1 / above 2*limit / 10*limit at every position, receiver = accepted or dialled transport, with or without a TraceWriter, plain or upgraded to TLS before the stream, " +
+			"optionally well-formed JSON objects that are no envelopes at chosen positions (reported, and the stream goes on behind them), " +
 			"fragmentation mode, write chunking or a single glued write, late reader for coalescing, a slow writer against a polling receiver that calls Receive again after each expired receive context, or against receive contexts that end the very instant the envelope becomes complete); non-trivial = the real transport connected and at least one Receive ran; distinct = distinct (plan JSON, event-log hash)",
 	})
 }
